@@ -34,7 +34,7 @@ Q = 60000
 
 
 def instances(tier, seed):
-    specs = [{'n': 2, 'kind': 'conv'}, {'n': 3, 'kind': 'seq'}, {'n': 4, 'kind': 'mix'}, {'n': 2, 'kind': 'mix', 'blocks': 2}, {'n': 3, 'kind': 'conv', 'twice': True}, {'n': 2, 'kind': 'dw'}, {'n': 2, 'kind': 'conv', 'stem2': True}]
+    specs = [{'n': 2, 'kind': 'conv'}, {'n': 3, 'kind': 'seq'}, {'n': 4, 'kind': 'mix'}, {'n': 2, 'kind': 'mix', 'blocks': 2}, {'n': 3, 'kind': 'conv', 'twice': True}, {'n': 2, 'kind': 'dw'}, {'n': 2, 'kind': 'conv', 'stem2': True}, {'n': 2, 'kind': 'conv', 'collide': True}]
     if tier == 'thorough':
         specs += [{'n': n, 'kind': k} for n in (2, 3, 5, 6) for k in ('conv', 'seq', 'user', 'identity', 'mix')] + [{'n': 2, 'kind': 'mix', 'blocks': 3, 'twice': True}]
     out = []
